@@ -256,7 +256,7 @@ Lemma cksf_tail_inv1 s1 i r :
   inv1 s1 -> aget i (live s1) = Some r ->
   inv1 {| store := store s1; pend := pend s1; tick := tick s1 + 1; applied := applied s1;
           live := aput i (set_stamp r (tick s1)) (live s1); leases := leases s1; dp := dp s1; dpnext := dpnext s1;
-          released := released s1; used := used s1; poison := poison s1; completed := completed s1 |}.
+          released := released s1; used := used s1; poison := poison s1; completed := completed s1; delpend := delpend s1 |}.
 Proof.
   intros I L. destruct I.
   assert (NR : ~ In i (released s1)).
@@ -312,7 +312,7 @@ Lemma inv1_replay s k r' ls d nx :
   inv1 s -> s_id r' = k -> In k (used s) -> ~ In k (released s) ->
   inv1 {| store := store s; pend := pend s ++ [(tick s, r')]; tick := tick s + 1; applied := applied s;
           live := aput k r' (live s); leases := ls; dp := d; dpnext := nx;
-          released := released s; used := used s; poison := poison s; completed := completed s |}.
+          released := released s; used := used s; poison := poison s; completed := completed s; delpend := delpend s |}.
 Proof.
   intros [] ID U NR. constructor; cbn [store live pend tick applied released used completed]; auto.
   - intros k0 r0. rewrite aget_aput. eqb_case k0 k; [intros H; inversion H; subst; auto|auto].
@@ -370,7 +370,7 @@ Proof.
   intros I. unfold do_crash.
   set (s0 := {| store := store s; pend := []; tick := tick s; applied := applied s; live := [];
                 leases := []; dp := if p then dp s else []; dpnext := if p then dpnext s else swif_base;
-                released := released s; used := used s; poison := []; completed := completed s |}).
+                released := released s; used := used s; poison := []; completed := completed s; delpend := [] |}).
   assert (I0 : inv1 s0).
   { destruct I. constructor; cbn [s0 store live pend tick applied released used]; auto;
       try (intros; discriminate).
@@ -396,22 +396,127 @@ Definition relf_pre (c : cfg) (s : st) (i : N) : st :=
 Lemma relf_pre_live c s i : live (relf_pre c s i) = live s.
 Proof. unfold relf_pre. destruct (c_ordered c); auto. destruct (first_of c s i (pend s)); auto. apply do_done_core_live. Qed.
 
-Lemma do_relf_eq c s i r :
-  c_delretry c = true -> aget i (live s) = Some r -> fst (do_relf c s i) = fst (do_rel (relf_pre c s i) i).
-Proof.
-  intros D L. unfold do_relf. rewrite L, D. fold (relf_pre c s i). unfold do_rel. rewrite !relf_pre_live, L. cbn [fst]. reflexivity.
-Qed.
-
 Lemma relf_pre_inv1 c s i : c_ordered c = true -> inv1 s -> inv1 (relf_pre c s i).
 Proof.
   intros O I. unfold relf_pre. rewrite O. destruct (first_of c s i (pend s)); auto. apply do_done_core_inv1; auto.
 Qed.
 
-Lemma do_relf_inv1 c s i : c_ordered c = true -> c_delretry c = true -> inv1 s -> inv1 (fst (do_relf c s i)).
+(* the in-memory part of a release + a write slot consumed, the store and [released] untouched *)
+Lemma relf_tail_inv1 s1 i r ls d dl :
+  inv1 s1 -> aget i (live s1) = Some r ->
+  inv1 {| store := store s1; pend := pend s1; tick := tick s1 + 1; applied := aput i (tick s1) (applied s1);
+          live := aremove i (live s1); leases := ls; dp := d; dpnext := dpnext s1; released := released s1;
+          used := used s1; poison := poison s1; completed := completed s1; delpend := dl |}.
 Proof.
-  intros O D I. destruct (aget i (live s)) as [r|] eqn:L.
-  - rewrite (do_relf_eq c s i r D L). apply do_rel_inv1. apply relf_pre_inv1; auto.
-  - unfold do_relf. rewrite L. auto.
+  intros I L. destruct I.
+  constructor; cbn [store live pend tick applied released used completed]; auto.
+  - intros k r0. rewrite aget_aremove. eqb_case k i; [discriminate|auto].
+  - intros t r0 H. apply i_pend_tick0 in H. lia.
+  - intros j a. rewrite aget_aput. eqb_case j i; [intros H; inversion H; lia|]. intros H. apply i_appl_tick0 in H. lia.
+  - intros k r0. rewrite aget_aremove. eqb_case k i; [discriminate|eauto].
+  - intros j Hj. destruct (i_gone0 j Hj) as (A & B & a & C & D).
+    assert (j <> i) by (intro; subst; congruence).
+    rewrite aget_aremove_neq, aget_aput_neq; auto; repeat split; eauto.
+Qed.
+
+Lemma do_relf_inv1 c s i : c_ordered c = true -> inv1 s -> inv1 (fst (do_relf c s i)).
+Proof.
+  intros O I. unfold do_relf. destruct (aget i (live s)) as [r|] eqn:L; auto. fold (relf_pre c s i). cbn [fst].
+  apply (relf_tail_inv1 (relf_pre c s i) i r); [apply relf_pre_inv1; auto|]. rewrite relf_pre_live. auto.
+Qed.
+
+(* ---- invariant 4: sessions whose checkpoint Delete is outstanding are not in the index ---- *)
+Record inv4 (s : st) : Prop := {
+  d_live : forall i g, aget i (delpend s) = Some g -> aget i (live s) = None;
+  d_used : forall i g, aget i (delpend s) = Some g -> In i (used s) }.
+
+Lemma inv4_init : inv4 init.
+Proof. constructor; cbn; intros; discriminate. Qed.
+
+(* frame: an operation that leaves [delpend] and [used] alone and only puts sessions that were already in the index *)
+Lemma inv4_frame s s' :
+  inv4 s -> delpend s' = delpend s -> used s' = used s ->
+  (forall i, aget i (live s) = None -> aget i (live s') = None) -> inv4 s'.
+Proof. intros [] ED EU HL. constructor; rewrite ?ED, ?EU; eauto. Qed.
+
+Lemma do_done_core_delpend c s t rt :
+  delpend (fst (do_done_core c s t rt)) = delpend s /\ used (fst (do_done_core c s t rt)) = used s.
+Proof.
+  unfold do_done_core. destruct (aget t (pend s)); auto. destruct (aget t (poison s)); [destruct rt; auto|].
+  destruct (effective c s (s_id s0) t); auto.
+Qed.
+
+Lemma do_done_core_inv4 c s t rt : inv4 s -> inv4 (fst (do_done_core c s t rt)).
+Proof.
+  intros I. destruct (do_done_core_delpend c s t rt) as (A & B).
+  apply (inv4_frame s); auto. intros i. rewrite do_done_core_live. auto.
+Qed.
+
+Lemma flush_inv4 c ts : forall s, inv4 s -> inv4 (fold_left (fun s0 t => fst (do_done_core c s0 t false)) ts s).
+Proof. induction ts as [|t ts IH]; intros s I; cbn [fold_left]; auto. apply IH, do_done_core_inv4; auto. Qed.
+
+Lemma relf_pre_inv4 c s i : inv4 s -> inv4 (relf_pre c s i).
+Proof.
+  intros I. unfold relf_pre. destruct (c_ordered c); auto. destruct (first_of c s i (pend s)); auto.
+  apply do_done_core_inv4; auto.
+Qed.
+
+Lemma do_relf_inv4 c s i : inv1 s -> inv4 s -> inv4 (fst (do_relf c s i)).
+Proof.
+  intros I1 I4. unfold do_relf. destruct (aget i (live s)) as [r|] eqn:L; auto. fold (relf_pre c s i). cbn [fst].
+  pose proof (relf_pre_inv4 c s i I4) as [DL DU].
+  assert (U : In i (used (relf_pre c s i))).
+  { unfold relf_pre. destruct (c_ordered c); [|eapply i_live_used; eauto].
+    destruct (first_of c s i (pend s)); [|eapply i_live_used; eauto].
+    destruct (do_done_core_delpend c s n false) as (_ & E). rewrite E. eapply i_live_used; eauto. }
+  constructor; cbn [delpend live used].
+  - intros j g. rewrite aget_aput, aget_aremove. eqb_case j i; auto. eauto.
+  - intros j g. rewrite aget_aput. eqb_case j i; auto. eauto.
+Qed.
+
+Lemma do_delretry_inv1 s i ok : inv1 s -> inv4 s -> inv1 (fst (do_delretry s i ok)).
+Proof.
+  intros I1 I4. unfold do_delretry. destruct (aget i (delpend s)) as [[|]|] eqn:G; auto. destruct ok; auto.
+  pose proof (d_live s I4 i false G) as LN. pose proof (d_used s I4 i false G) as UI. destruct I1.
+  constructor; cbn [fst store live pend tick applied released used completed]; auto.
+  - intros k r0. rewrite aget_aremove. eqb_case k i; [discriminate|auto].
+  - intros t r0 H. apply i_pend_tick0 in H. lia.
+  - intros j a. rewrite aget_aput. eqb_case j i; [intros H; inversion H; lia|]. intros H. apply i_appl_tick0 in H. lia.
+  - intros j [Hj|Hj]; subst; eauto.
+  - intros k r0. rewrite aget_aremove. eqb_case k i; [discriminate|eauto].
+  - intros j [Hj|Hj].
+    + subst j. rewrite aget_aremove_eq, aget_aput_eq. repeat split; auto.
+      exists (tick s). split; auto. intros t r0 H _. eauto.
+    + destruct (N.eq_dec j i) as [->|NE].
+      * rewrite aget_aremove_eq, aget_aput_eq. repeat split; auto.
+        exists (tick s). split; auto. intros t r0 H _. eauto.
+      * destruct (i_gone0 j Hj) as (A & B & a & C & D).
+        rewrite aget_aremove_neq, aget_aput_neq; auto; repeat split; eauto.
+Qed.
+
+Lemma do_delretry_inv4 s i ok : inv4 s -> inv4 (fst (do_delretry s i ok)).
+Proof.
+  intros I4. unfold do_delretry. destruct (aget i (delpend s)) as [[|]|] eqn:G; auto. destruct ok; auto.
+  destruct I4. constructor; cbn [fst delpend live used].
+  - intros j g. rewrite aget_aremove. eqb_case j i; [discriminate|eauto].
+  - intros j g. rewrite aget_aremove. eqb_case j i; [discriminate|eauto].
+Qed.
+
+Lemma set_delpend_inv1 s d : inv1 s -> inv1 (set_delpend s d).
+Proof. intros []. constructor; cbn [set_delpend store live pend tick applied released used]; auto. Qed.
+
+Lemma do_giveup_inv1 c s i : inv1 s -> inv1 (fst (do_giveup c s i)).
+Proof.
+  intros I. unfold do_giveup. destruct (aget i (delpend s)) as [[|]|]; auto. destruct (c_delforever c); auto.
+  apply set_delpend_inv1; auto.
+Qed.
+
+Lemma do_giveup_inv4 c s i : inv4 s -> inv4 (fst (do_giveup c s i)).
+Proof.
+  intros I. unfold do_giveup. destruct (aget i (delpend s)) as [[|]|] eqn:G; auto. destruct (c_delforever c); auto.
+  destruct I. constructor; cbn [fst set_delpend delpend live used].
+  - intros j g. rewrite aget_aput. eqb_case j i; eauto.
+  - intros j g. rewrite aget_aput. eqb_case j i; eauto.
 Qed.
 
 (* ---- stop in the middle of a release ---- *)
@@ -446,27 +551,122 @@ Qed.
 Lemma do_relstop_inv1 c s i pd p f now : c_ordered c = true -> inv1 s -> inv1 (fst (do_relstop c s i pd p f now)).
 Proof. intros O I. rewrite do_relstop_fst. apply do_crash_inv1. apply relstop_pre_inv1; auto. Qed.
 
-(* the recorded finding "a failing checkpoint Delete is only logged" is excluded either by the repair or by the
-   history containing no failing Delete *)
+(* ---- invariant 4 for the remaining operations ---- *)
+Lemma do_new_inv4 c s n o4 o6 opd s' o :
+  inv4 s -> do_new c s n o4 o6 opd = Some (s', o) -> inv4 s'.
+Proof.
+  intros I H. unfold do_new in H.
+  destruct (nmem (n_id n) (used s)) eqn:U; [inversion H; subst; auto|].
+  destruct (take_addr c (n_id n) (leases s) 0 (n_a4 n) o4) as [[a4 l1]|]; try discriminate.
+  destruct (take_addr c (n_id n) l1 1 (n_a6 n) o6) as [[a6 l2]|]; try discriminate.
+  destruct (take_addr c (n_id n) l2 2 (n_apd n) opd) as [[apd l3]|]; try discriminate.
+  assert (NU : ~ In (n_id n) (used s)) by (rewrite <- nmem_In; congruence).
+  destruct I as [DL DU].
+  assert (R : forall (r : sess) d nx,
+            inv4 {| store := store s; pend := pend s; tick := tick s; applied := applied s;
+                    live := aput (n_id n) r (live s); leases := l3; dp := d; dpnext := nx;
+                    released := released s; used := n_id n :: used s; poison := poison s;
+                    completed := completed s; delpend := delpend s |}).
+  { intros r d nx. constructor; cbn [delpend live used].
+    - intros j g G. rewrite aget_aput_neq; eauto. intro; subst. apply NU. eauto.
+    - intros j g G. right. eauto. }
+  destruct (n_crea n).
+  - destruct (dp_add (n_id n) (dp s) (dpnext s)) as [[sw d1] nx1]. inversion H; subst s' o. apply R.
+  - inversion H; subst s' o. apply R.
+Qed.
+
+Lemma inv4_put_live s i r r' ls d nx st' pd' tk' ap' po' co' :
+  inv4 s -> aget i (live s) = Some r ->
+  inv4 {| store := st'; pend := pd'; tick := tk'; applied := ap'; live := aput i r' (live s); leases := ls;
+          dp := d; dpnext := nx; released := released s; used := used s; poison := po'; completed := co';
+          delpend := delpend s |}.
+Proof.
+  intros [DL DU] L. constructor; cbn [delpend live used]; eauto.
+  intros j g G. rewrite aget_aput. eqb_case j i; eauto. rewrite (DL _ _ G) in L. discriminate.
+Qed.
+
+Lemma do_ck_inv4 s i : inv4 s -> inv4 (fst (do_ck s i)).
+Proof. intros I. unfold do_ck. destruct (aget i (live s)) eqn:L; auto. eapply inv4_put_live; eauto. Qed.
+Lemma do_cks_inv4 s i : inv4 s -> inv4 (fst (do_cks s i)).
+Proof. intros I. unfold do_cks. destruct (aget i (live s)) eqn:L; auto. eapply inv4_put_live; eauto. Qed.
+Lemma do_rel_inv4 s i : inv4 s -> inv4 (fst (do_rel s i)).
+Proof.
+  intros I. unfold do_rel. destruct (aget i (live s)) eqn:L; auto. destruct I as [DL DU].
+  constructor; cbn [fst delpend live used]; eauto.
+  intros j g G. rewrite aget_aremove. destruct (N.eqb j i); eauto.
+Qed.
+Lemma do_done_inv4 c s t rt : inv4 s -> inv4 (fst (do_done c s t rt)).
+Proof.
+  intros I. unfold do_done. destruct (aget t (pend s)) as [r|]; [|apply do_done_core_inv4; auto].
+  destruct (aget t (poison s)); [|apply do_done_core_inv4; auto].
+  apply do_done_core_inv4. destruct (c_ordered c); auto. unfold flush. apply flush_inv4; auto.
+Qed.
+Lemma do_poison_inv4 s t al : inv4 s -> inv4 (fst (do_poison s t al)).
+Proof.
+  intros I. unfold do_poison. destruct (aget t (pend s)); auto. destruct I. constructor; cbn; eauto.
+Qed.
+Lemma fold_done_live c ts : forall s, live (fold_left (fun s0 t => fst (do_done_core c s0 t false)) ts s) = live s.
+Proof. induction ts as [|t ts IH]; intros s; cbn [fold_left]; auto. rewrite IH. apply do_done_core_live. Qed.
+
+Lemma do_cksf_inv4 c s i : inv4 s -> inv4 (fst (do_cksf c s i)).
+Proof.
+  intros I. unfold do_cksf. destruct (aget i (live s)) as [r|] eqn:L; auto. cbn [fst].
+  set (s1 := if c_ordered c then flush c s i (tick s) else s).
+  assert (I1 : inv4 s1) by (unfold s1; destruct (c_ordered c); auto; unfold flush; apply flush_inv4; auto).
+  assert (L1 : live s1 = live s).
+  { unfold s1. destruct (c_ordered c); auto. unfold flush. apply fold_done_live. }
+  eapply inv4_put_live; eauto. rewrite L1. eauto.
+Qed.
+
+Lemma restore_one_delpend c now f cause store0 s lg k :
+  delpend (fst (restore_one c now f cause store0 (s, lg) k)) = delpend s.
+Proof.
+  unfold restore_one. destruct (aget k store0) as [r|]; auto. destruct (expired c now r); auto.
+  destruct (match c_proto c with IPoE => s_appr r && negb (s_crea r) | PPPoE => false end); auto.
+  destruct (replayed c r); auto. destruct (match f with Some f0 => f0 =? k | None => false end); auto.
+  destruct (dp_add k (dp (install c s k r)) (dpnext (install c s k r))) as [[sw d1] nx1]. auto.
+Qed.
+
+Lemma do_crash_inv4 c s p f now : inv4 (fst (do_crash c s p f now)).
+Proof.
+  unfold do_crash.
+  match goal with |- context [fold_left (restore_one c now f ?CA ?ST) ?L (?S0, ?LG)] =>
+    assert (G : forall ks a, delpend (fst (fold_left (restore_one c now f CA ST) ks a)) = delpend (fst a)) end.
+  { induction ks as [|k ks IH]; intros [s0 lg0]; cbn [fold_left]; auto. rewrite IH. apply restore_one_delpend. }
+  destruct (fold_left _ _ _) as [s4 lg] eqn:E. cbn [fst].
+  assert (D : delpend s4 = []). { change s4 with (fst (s4, lg)). rewrite <- E, G. reflexivity. }
+  constructor; rewrite D; cbn; intros; discriminate.
+Qed.
+
+Lemma do_relstop_inv4 c s i pd p f now : inv4 (fst (do_relstop c s i pd p f now)).
+Proof. rewrite do_relstop_fst. apply do_crash_inv4. Qed.
+
+(* histories without a failing checkpoint Delete (only needed for the allocator theorem, see there) *)
 Definition delok (c : cfg) (o : op) : Prop :=
-  c_delretry c = true \/ match o with RelF _ => False | _ => True end.
+  match o with RelF _ | DelRetry _ _ | GiveUp _ => False | _ => True end.
+
+Lemma step_inv14 c s o s' out :
+  c_ordered c = true -> inv1 s /\ inv4 s -> step c s o = Some (s', out) -> inv1 s' /\ inv4 s'.
+Proof.
+  intros O (I & I4) H. destruct o; cbn [step] in H.
+  - split; [eapply do_new_inv1; eauto|eapply do_new_inv4; eauto].
+  - inversion H. change s' with (fst (s', out)). rewrite <- H1. split; [apply do_ck_inv1|apply do_ck_inv4]; auto.
+  - inversion H. change s' with (fst (s', out)). rewrite <- H1. split; [apply do_cks_inv1|apply do_cks_inv4]; auto.
+  - inversion H. change s' with (fst (s', out)). rewrite <- H1. split; [apply do_rel_inv1|apply do_rel_inv4]; auto.
+  - inversion H. change s' with (fst (s', out)). rewrite <- H1. split; [apply do_done_inv1|apply do_done_inv4]; auto.
+  - inversion H. change s' with (fst (s', out)). rewrite <- H1. split; [apply do_poison_inv1|apply do_poison_inv4]; auto.
+  - inversion H. change s' with (fst (s', out)). rewrite <- H1. split; [apply do_cksf_inv1|apply do_cksf_inv4]; auto.
+  - inversion H. change s' with (fst (s', out)). rewrite <- H1. split; [apply do_relf_inv1|apply do_relf_inv4]; auto.
+  - inversion H. change s' with (fst (s', out)). rewrite <- H1. split; [apply do_delretry_inv1|apply do_delretry_inv4]; auto.
+  - inversion H. change s' with (fst (s', out)). rewrite <- H1. split; [apply do_giveup_inv1|apply do_giveup_inv4]; auto.
+  - inversion H; subst; auto.
+  - inversion H. change s' with (fst (s', out)). rewrite <- H1. split; [apply do_crash_inv1; auto|apply do_crash_inv4].
+  - inversion H. change s' with (fst (s', out)). rewrite <- H1. split; [apply do_relstop_inv1; auto|apply do_relstop_inv4].
+Qed.
 
 Lemma step_inv1 c s o s' out :
-  c_ordered c = true -> delok c o -> inv1 s -> step c s o = Some (s', out) -> inv1 s'.
-Proof.
-  intros O DR I H. destruct o; cbn [step] in H.
-  - eapply do_new_inv1; eauto.
-  - inversion H. change s' with (fst (s', out)). rewrite <- H1. apply do_ck_inv1; auto.
-  - inversion H. change s' with (fst (s', out)). rewrite <- H1. apply do_cks_inv1; auto.
-  - inversion H. change s' with (fst (s', out)). rewrite <- H1. apply do_rel_inv1; auto.
-  - inversion H. change s' with (fst (s', out)). rewrite <- H1. apply do_done_inv1; auto.
-  - inversion H. change s' with (fst (s', out)). rewrite <- H1. apply do_poison_inv1; auto.
-  - inversion H. change s' with (fst (s', out)). rewrite <- H1. apply do_cksf_inv1; auto.
-  - inversion H. change s' with (fst (s', out)). rewrite <- H1. destruct DR as [DR|[]]. apply do_relf_inv1; auto.
-  - inversion H; subst; auto.
-  - inversion H. change s' with (fst (s', out)). rewrite <- H1. apply do_crash_inv1; auto.
-  - inversion H. change s' with (fst (s', out)). rewrite <- H1. apply do_relstop_inv1; auto.
-Qed.
+  c_ordered c = true -> inv1 s /\ inv4 s -> step c s o = Some (s', out) -> inv1 s'.
+Proof. intros O I H. eapply step_inv14; eauto. Qed.
 
 Lemma run_inv_ok (P : st -> Prop) (okop : op -> Prop) c :
   (forall s o s' out, okop o -> P s -> step c s o = Some (s', out) -> P s') ->
@@ -497,15 +697,18 @@ Qed.
 
 (* T1 *)
 Lemma released_stay_gone c ops s :
-  c_ordered c = true -> Forall (delok c) ops -> run c init ops = Some s ->
+  c_ordered c = true -> run c init ops = Some s ->
   (forall i, In i (released s) -> aget i (live s) = None /\ aget i (store s) = None) /\
   (forall p f now i, In i (released s) ->
      let s' := fst (do_crash c s p f now) in
      In i (released s') /\ aget i (live s') = None /\ aget i (store s') = None).
 Proof.
-  intros O DR R.
+  intros O R.
   assert (I : inv1 s).
-  { eapply (run_inv_ok inv1 (delok c) c); eauto using inv1_init. intros. eapply step_inv1; eauto. }
+  { assert (J : inv1 s /\ inv4 s); [|tauto].
+    eapply (run_inv (fun s => inv1 s /\ inv4 s) c); eauto.
+    - intros. eapply step_inv14; eauto.
+    - split; [apply inv1_init|apply inv4_init]. }
   split.
   - intros i Hi. destruct (i_gone s I i Hi) as (A & B & _). auto.
   - intros p f now i Hi s'.
@@ -516,7 +719,7 @@ Proof.
               (store s) (isort (map fst (store s)))
               {| store := store s; pend := []; tick := tick s; applied := applied s; live := [];
                  leases := []; dp := if p then dp s else []; dpnext := if p then dpnext s else swif_base;
-                 released := released s; used := used s; poison := []; completed := completed s |} []) as (_ & _ & GR).
+                 released := released s; used := used s; poison := []; completed := completed s; delpend := [] |} []) as (_ & _ & GR).
       - intros k r G. destruct I. cbn [used released]. repeat split; eauto.
         intros Hk. destruct (i_gone0 k Hk) as (A & _). congruence.
       - destruct I. constructor; cbn [store live pend tick applied released used completed]; auto;
@@ -631,7 +834,7 @@ Lemma restore_replay_self c f cause dp0 s lg k r :
                tick := tick (install c s k r) + 1; applied := applied (install c s k r);
                live := aput k (set_prog r sw) (live (install c s k r)); leases := leases (install c s k r);
                dp := dp_prog k r d1; dpnext := nx1; released := released (install c s k r);
-               used := used (install c s k r); poison := poison (install c s k r); completed := completed (install c s k r) |} in
+               used := used (install c s k r); poison := poison (install c s k r); completed := completed (install c s k r); delpend := delpend (install c s k r) |} in
   restoredQ c f cause dp0 k r s' (lg ++ prog_log c k sw r ++ [TR k cause]) /\ dpinv dp0 k s'.
 Proof.
   intros RP FL DI sw d1 nx1 DA s'.
@@ -965,7 +1168,7 @@ Proof.
   assert (REST : forall (r : sess) d nx, addrs r = addrs r0 ->
             inv2 c {| store := store s; pend := pend s; tick := tick s; applied := applied s;
                       live := aput (n_id n) r (live s); leases := l3; dp := d; dpnext := nx;
-                      released := released s; used := n_id n :: used s; poison := poison s; completed := completed s |}).
+                      released := released s; used := n_id n :: used s; poison := poison s; completed := completed s; delpend := delpend s |}).
   { intros r d nx EA. destruct I1, I2. constructor; cbn [store live pend leases applied].
     - intros k r1 ad. rewrite aget_aput. eqb_case k (n_id n).
       + intros H1. inversion H1; subst. apply OWN; auto.
@@ -1209,18 +1412,6 @@ Proof.
   apply do_done_core_inv2; auto.
 Qed.
 
-Lemma do_relf_inv2 c s i :
-  c_ordered c = true -> c_delretry c = true -> inv1 s -> inv2 c s -> inv2 c (fst (do_relf c s i)).
-Proof.
-  intros O D I1 I2. destruct (aget i (live s)) as [r|] eqn:L.
-  - rewrite (do_relf_eq c s i r D L).
-    assert (J1 : inv1 (relf_pre c s i)) by (apply relf_pre_inv1; auto).
-    assert (J2 : inv2 c (relf_pre c s i)).
-    { unfold relf_pre. rewrite O. destruct (first_of c s i (pend s)); auto. apply do_done_core_inv2; auto. }
-    apply do_rel_inv2; auto.
-  - unfold do_relf. rewrite L. auto.
-Qed.
-
 Lemma set_dp_inv2 c s d : inv2 c s -> inv2 c (set_dp s d).
 Proof. intros []. constructor; cbn [set_dp store live pend leases applied]; auto. Qed.
 
@@ -1244,10 +1435,10 @@ Qed.
 
 Lemma step_inv12 c s o s' out :
   c_ordered c = true -> delok c o -> reserves c -> pools_small c ->
-  inv1 s /\ inv2 c s -> step c s o = Some (s', out) -> inv1 s' /\ inv2 c s'.
+  (inv1 s /\ inv4 s) /\ inv2 c s -> step c s o = Some (s', out) -> (inv1 s' /\ inv4 s') /\ inv2 c s'.
 Proof.
-  intros O DR RS PS (I1 & I2) H. split; [eapply step_inv1; eauto|].
-  destruct o; cbn [step] in H.
+  intros O DR RS PS ((I1 & I4) & I2) H. split; [eapply step_inv14; eauto|].
+  destruct o; cbn [step] in H; try (destruct DR; fail).
   - eapply do_new_inv2; eauto.
   - inversion H. change s' with (fst (s', out)). rewrite <- H1. apply do_ck_inv2; auto.
   - inversion H. change s' with (fst (s', out)). rewrite <- H1. apply do_cks_inv2; auto.
@@ -1255,7 +1446,6 @@ Proof.
   - inversion H. change s' with (fst (s', out)). rewrite <- H1. apply do_done_inv2; auto.
   - inversion H. change s' with (fst (s', out)). rewrite <- H1. apply do_poison_inv2; auto.
   - inversion H. change s' with (fst (s', out)). rewrite <- H1. apply do_cksf_inv2; auto.
-  - inversion H. change s' with (fst (s', out)). rewrite <- H1. destruct DR as [DR|[]]. apply do_relf_inv2; auto.
   - inversion H; subst; auto.
   - inversion H. change s' with (fst (s', out)). rewrite <- H1. apply do_crash_inv2; auto.
   - inversion H. change s' with (fst (s', out)). rewrite <- H1. apply do_relstop_inv2; auto.
@@ -1273,9 +1463,10 @@ Lemma reserved_before_alloc c ops s :
 Proof.
   intros O DR RS PS R.
   assert (I : inv1 s /\ inv2 c s).
-  { eapply (run_inv_ok (fun s => inv1 s /\ inv2 c s) (delok c) c); eauto.
+  { assert (J : (inv1 s /\ inv4 s) /\ inv2 c s); [|tauto].
+    eapply (run_inv_ok (fun s => (inv1 s /\ inv4 s) /\ inv2 c s) (delok c) c); eauto.
     - intros. eapply step_inv12; eauto.
-    - split; [apply inv1_init|apply inv2_init]. }
+    - split; [split; [apply inv1_init|apply inv4_init]|apply inv2_init]. }
   destruct I as (I1 & I2). split; [|split].
   - apply (j_own _ _ I2).
   - intros fam a F OK k r G IN. unfold alloc_ok in OK. apply andb_prop in OK. destruct OK as (A & B).
